@@ -471,5 +471,23 @@ func c11(r *mon.Run) {
 				t.Count("nested by-functions: value expected")
 			}
 		}}
-	r.Exec(w, late, rnd, nested)
+	// an erroring expression searched (one-shot) right after a succeeding expression that a short digest cannot tell from it
+	// (same length, same 32-bit FNV-1a checksum; the pairs are precomputed): it fails all the same
+	collw := mon.Workload{Name: "erroring-expressions-that-collide-with-succeeding-ones", N: 1,
+		Do: func(i int, t *mon.Tally) {
+			doc := docs.J(`{"name":"n","k136079":1,"k0403522":2,"declinate":"s","macallums":"s"}`)
+			for _, pr := range [][2]string{{"length(name)||k136079", "abs(name) || k0403522"}, {"declinate", "abs(macallums)"}, {"length(declinate)", "abs(macallums)"}} {
+				for rep := 0; rep < 2; rep++ {
+					t.Eval()
+					ok := apiSearch(pr[0], mon.DeepCopy(doc))
+					bad := apiSearch(pr[1], mon.DeepCopy(doc))
+					if ok.Panicked || ok.Err != nil || bad.Panicked || bad.Err == nil {
+						r.Violate(&mon.Violation{Workload: "erroring-expressions-that-collide-with-succeeding-ones", Index: i, API: "Search", Expr: pr[1], Doc: doc, Expected: "an error (abs of a string), also right after the one-shot Search of " + pr[0] + " (which gives " + ok.String() + ")", Observed: bad.String(), Class: "error lost after a look-alike expression"})
+						return
+					}
+				}
+			}
+			t.Nontrivial("coll")
+		}}
+	r.Exec(w, late, rnd, nested, collw)
 }
